@@ -325,6 +325,12 @@ STD_OVERLOADED = ("trunc", "floor", "ceil", "round", "rint", "nearbyint", "lrint
                   "fabs", "sqrt", "fmin", "fmax", "fmod", "copysign")
 
 
+def r_strip_ns(text):
+    """qualified calls of library-internal helpers: detail::f(..), utility::detail::f(..) -> f(..) (the helper itself is then
+    extracted automatically)"""
+    return re.subn(r"\b(?:covfie::)?(?:utility::)?detail::(?=[A-Za-z_]\w*\s*\()", "", text)
+
+
 def r_std(text):
     """R2: drop std:: from names that exist identically in C.
        R3: overloaded <cmath> functions -> VERIF_STDM_<name> (type-generic selection as C++ overload resolution does)."""
@@ -334,7 +340,8 @@ def r_std(text):
     text, n2 = rx.subn(lambda m: "VERIF_STDM_" + m.group(1) + "(", text)
     rx = re.compile(r"\bstd::(min|max)\s*\(")
     text, n3 = rx.subn(lambda m: "VERIF_STD_" + m.group(1) + "(", text)
-    return text, n1 + n2 + n3
+    text, n4 = re.subn(r"\bnullptr\b", "((void *)0)", text)
+    return text, n1 + n2 + n3 + n4
 
 
 def split_args(inner):
@@ -560,7 +567,7 @@ def r_auto(text):
 def r_functional_cast(text):
     """size_t(1) -> ((size_t)(1))  (functional cast of a scalar type)."""
     count = 0
-    rx = re.compile(r"(?<![A-Za-z_0-9.>])(size_t|uint32_t|uint64_t|int|unsigned|float|double)\s*\(")
+    rx = re.compile(r"(?<![A-Za-z_0-9.>])(size_t|uint32_t|uint64_t|int|unsigned|float|double|AT|IN_SCALAR_T|OUT_SCALAR_T|B_IN_SCALAR_T|CAST_T|IDENT_OUT_T)\s*\((?!\s*\*)")
     pos = 0
     while True:
         m = rx.search(text, pos)
@@ -578,6 +585,16 @@ def r_functional_cast(text):
         pos = m.start() + len("((" + m.group(1) + ")(")
         count += 1
     return text, count
+
+
+def r_local_using(text):
+    """R26: a function-local alias `using X = T;` -> `typedef T X;` (applied after type rewriting, so T is a C type)"""
+    return re.subn(r"\busing\s+([A-Za-z_]\w*)\s*=\s*([^;{}]+?)\s*;", lambda m: "typedef %s %s;" % (m.group(2), m.group(1)), text)
+
+
+def r_ref_to_array(text):
+    """R25: `const T (&name)[K] = e;` (reference to an array, e.g. a hoisted matrix row) -> `const T *name = e;`"""
+    return re.subn(r"\b(const\s+)?([A-Za-z_]\w*)\s*\(\s*&\s*([A-Za-z_]\w*)\s*\)\s*\[[^\]]*\]\s*=", lambda m: "%s%s *%s =" % (m.group(1) or "", m.group(2), m.group(3)), text)
 
 
 def r_brace_scalar_init(text):
